@@ -604,6 +604,9 @@ def check(run):
         finally:
             core.CURRENT_INPUT.clear()
             core.rm_rf(sc_)
+        # views are objects created anew by every load of the jugfile: their identifiers along a history of loads (fresh interpreters, one interpreter loading 150 times)
+        from jugverif import hashhist
+        hashhist.history_family(run)
         if drv is not None and run.corr_disagreements == 0:
             run.obligation('correspondence: %d view evaluations / dependency sets / indexing cases equal the model' % run.corr_programs, True)
     finally:
